@@ -39,6 +39,10 @@ func (o op) line() string {
 	if o.Kind == "skipend" || o.Kind == "skipendrec" || o.Kind == "skipstack" {
 		return o.Kind + " " + o.Hex
 	}
+	if o.Kind == "big" {
+		// the model is asked about a small stand-in (the large value itself is judged by the oracle)
+		return fmt.Sprintf("w str %d %s", o.Tag, "6269672d" /* "big-" */)
+	}
 	if o.Kind == "w" {
 		return fmt.Sprintf("w %s %d %s", o.Ty, o.Tag, o.Val)
 	}
@@ -111,6 +115,52 @@ func implWrite(ty string, tag byte, val string) (out string) {
 // implRead runs the real reader; the result is "ok <value> <pos>" or "err".
 func implRead(ty string, tag byte, req bool, old string, data []byte) (out string) {
 	return implReadOn(codec.NewReader(data), len(data), ty, tag, req, old)
+}
+
+// implBig writes and reads back a string of n bytes at tag; returns "" or what is wrong
+func implBig(n int, tag byte) (msg string) {
+	defer func() {
+		if r := recover(); r != nil {
+			msg = fmt.Sprintf("panic %v", r)
+		}
+	}()
+	b := make([]byte, n)
+	for i := range b {
+		b[i] = byte(i*131 + i>>8 + 7)
+	}
+	val := string(b)
+	w := codec.NewBuffer()
+	if err := w.WriteString(val, tag); err != nil {
+		return "WriteString failed: " + err.Error()
+	}
+	enc := w.ToBytes()
+	hd := 1
+	if tag >= 15 {
+		hd = 2
+	}
+	wantLen, ty := hd+1+n, byte(6)
+	if n > 255 {
+		wantLen, ty = hd+4+n, 7
+	}
+	if len(enc) != wantLen || enc[0]&0x0f != ty {
+		return fmt.Sprintf("string of %d bytes: encoding has %d bytes and type nibble %d, the wire format prescribes %d bytes and type %d", n, len(enc), enc[0]&0x0f, wantLen, ty)
+	}
+	if n > 255 && binary.BigEndian.Uint32(enc[hd:hd+4]) != uint32(n) {
+		return fmt.Sprintf("string of %d bytes: 4-byte length field says %d", n, binary.BigEndian.Uint32(enc[hd:hd+4]))
+	}
+	data := append(enc, 0x5a, 0x5a)
+	rd := codec.NewReader(data)
+	var got string
+	if err := rd.ReadString(&got, tag, true); err != nil {
+		return fmt.Sprintf("string of %d bytes written by WriteString is rejected by ReadString: %v", n, err)
+	}
+	if got != val {
+		return fmt.Sprintf("string of %d bytes: read back %d bytes, different content", n, len(got))
+	}
+	if p := implPos(rd, len(data)); p != len(enc) {
+		return fmt.Sprintf("string of %d bytes: reader at %d after the field, field ends at %d", n, p, len(enc))
+	}
+	return ""
 }
 
 // implLook: optional read of the absent tag, then the required read of the present field, on ONE reader
@@ -679,6 +729,18 @@ func genOps(o *common.Opts, rng *rand.Rand, res *common.Result) []op {
 			}
 		}
 	}
+	// 3c. large strings (implementation-side oracle only: the wire form is head + 4-byte length + the
+	// bytes, the round trip is exact, the reader ends at the end of the field): sizes around the
+	// powers of two and the 10/16 MiB marks where size limits tend to be put
+	bigs := []int{255, 256, 65535, 65536, 65537, 1 << 20, 10<<20 - 1, 10 << 20, 10<<20 + 1}
+	if o.Thorough() {
+		bigs = append(bigs, 16<<20-1, 16<<20, 16<<20+1, 32<<20+3, 64 << 20)
+	} else {
+		bigs = append(bigs, 16<<20+1)
+	}
+	for _, n := range bigs {
+		ops = append(ops, op{Kind: "big", Ty: "str", Tag: []int{0, 14, 15, 255}[rng.Intn(4)], Val: strconv.Itoa(n)})
+	}
 	// 4. SkipToStructEnd (the iterative skip) on struct bodies: well-formed members of every wire
 	// type and nesting, then mutated, truncated, random, and deeply nested ones
 	nskip := 3000
@@ -819,6 +881,14 @@ func check(c op, modelAns string, res *common.Result, verbose bool) {
 		if back != want {
 			res.Violate(common.Violation{Signature: "C02:round-trip:" + c.Ty, What: "write then read does not return the value at the end of the field",
 				Case: common.Case{Stream: "wire", Op: c, Impl: trunc(back), Note: "expected " + trunc(want)}})
+		}
+		res.TracesValidated++
+	case "big":
+		n, _ := strconv.Atoi(c.Val)
+		msg := implBig(n, byte(c.Tag))
+		res.Count(fmt.Sprintf("big/%d/%s", n, tagClass(c.Tag)), "big-string", true)
+		if msg != "" {
+			res.Violate(common.Violation{Signature: "C02:round-trip:str-large", What: msg, Case: common.Case{Stream: "wire", Op: c, Impl: msg}})
 		}
 		res.TracesValidated++
 	case "look":
